@@ -286,9 +286,16 @@ pub trait Prop: Sync + Send + 'static {
     fn exhaustive(&self, _tier: Tier) -> bool {
         false
     }
-    /// Watchdog bound per case (None = no watchdog).
+    /// Watchdog bound per case (None = no watchdog). Every property has one, so that a library that stops
+    /// terminating cannot stall a check for ever.
     fn watchdog(&self) -> Option<Duration> {
-        None
+        Some(Duration::from_secs(120))
+    }
+    /// Whether a confirmed hang is a violation of *this* property (C07: never hangs; C14/C15/C19: a result is
+    /// part of the statement). For every other property a hang is reported as an infrastructure condition (exit 2):
+    /// it belongs to C07 and says nothing about this property.
+    fn hang_is_violation(&self) -> bool {
+        false
     }
     fn max_shrink_iters(&self) -> u32 {
         4000
@@ -410,17 +417,27 @@ struct ShardResult<C> {
 }
 
 /// watchdog slot of a shard: start time and the JSON of the case being evaluated
-type Slot = Mutex<Option<(Instant, String)>>;
+/// (the case is kept as a clone and serialized only if the watchdog trips: serializing every case would cost more than
+/// evaluating it for the cheap properties)
+pub trait CaseJson: Send {
+    fn json(&self) -> String;
+}
+impl<C: Serialize + Send> CaseJson for C {
+    fn json(&self) -> String {
+        serde_json::to_string(self).unwrap_or_default()
+    }
+}
+type Slot = Mutex<Option<(Instant, Box<dyn CaseJson>)>>;
 
 thread_local! {
     static MY_SLOT: RefCell<Option<(Arc<Vec<Slot>>, usize)>> = const { RefCell::new(None) };
 }
 
 /// Marks the start of the evaluation of a case for the watchdog (no-op on threads without a watchdog slot).
-pub fn watch_begin<C: Serialize>(case: &C) {
+pub fn watch_begin<C: Serialize + Clone + Send + 'static>(case: &C) {
     MY_SLOT.with(|m| {
         if let Some((slots, i)) = m.borrow().as_ref() {
-            *slots[*i].lock().unwrap() = Some((Instant::now(), serde_json::to_string(case).unwrap_or_default()));
+            *slots[*i].lock().unwrap() = Some((Instant::now(), Box::new(case.clone())));
         }
     });
 }
@@ -721,9 +738,21 @@ pub fn run_prop<P: Prop>(p: P, opts: RunOpts) -> i32 {
                     let g = s.lock().unwrap();
                     if let Some((t, c)) = g.as_ref() {
                         if t.elapsed() > bound {
-                            let case = c.clone();
+                            let case = c.json();
                             drop(g);
                             let o = RunOpts { tier, seed };
+                            if !p.hang_is_violation() {
+                                let f = Failure::new("hang", format!("result within {:?}", bound), format!("no result after {:?}", bound));
+                                let path = write_replay_json(p.id(), &case, Some(&f), &o, "watchdog trip in a property for which a hang is not a violation (it belongs to C07)");
+                                println!(
+                                    "INFRA property={} a case did not finish within {:?}; a hang is a matter for C07, not a violation of this property (case saved: {})",
+                                    p.id(),
+                                    bound,
+                                    path.display()
+                                );
+                                let _ = std::io::stdout().flush();
+                                std::process::exit(2);
+                            }
                             let f = Failure::new(
                                 "hang",
                                 format!("result within {:?}", bound),
@@ -1156,7 +1185,7 @@ pub fn replay_prop<P: Prop>(p: P, path: &str) -> i32 {
 
 /// Helper for enumerations: evaluates one enumerated case, turning a panic (of the library or of the check)
 /// into a failure of that case instead of tearing the shard down.
-pub fn guarded<C: Clone + Serialize>(case: &C, f: impl FnOnce() -> Result<(), Failure>) -> Result<(), (C, Failure)> {
+pub fn guarded<C: Clone + Serialize + Send + 'static>(case: &C, f: impl FnOnce() -> Result<(), Failure>) -> Result<(), (C, Failure)> {
     watch_begin(case);
     let r = catch(f);
     watch_end();
